@@ -369,6 +369,56 @@ def unit_auto_dispatch():
 
         res = explore(run)
         u.add_paths(res, f"C15/WRAP/auto/{fmt}")
+
+        def run_err(ctx, fmt=fmt):
+            """a constraint error raised below carries the byte source as its remaining bytes (C13): the wrapper must hand it on untouched"""
+            from tpmstream.common.error import ConstraintViolatedError
+
+            def rest_gen():
+                yield fmt
+                yield from (1, 2, 3, 4)
+
+            REST = rest_gen()
+            err = ConstraintViolatedError("below")
+
+            def mk(name):
+                def st(I, args, kwargs):
+                    def gen():
+                        buf = kwargs.get("buffer")
+                        next(buf)  # the decoder consumed one byte, then failed on a byte send
+                        err.set_bytes_remaining(buf)
+                        raise PyExc(err, "inner")
+                        yield
+                    return IGen(gen(), name)
+                    yield
+                return st
+
+            stubs = {targets[k].marshal: mk(k) for k in targets}
+
+            def detect(I, args, kwargs):
+                return REST
+                yield
+
+            stubs[A.detect_format_and_yield_buffer] = detect
+            I = Interp(ctx, stubs=stubs)
+            g = run_sync(I.call(A.marshal, (), {"tpm_type": object(), "buffer": object(), "abort_on_error": True}))
+            out = None
+            try:
+                while True:
+                    g.g.send(None)
+            except StopIteration:
+                out = "returned"
+            except PyExc as e:
+                out = e.exc
+            ok = out is err
+            ctx.record("constraint-error-from-below-propagates", ok, site="auto/marshal.py:marshal", detail=repr(out)[:100])
+            if ok:
+                left = list(err.bytes_remaining)
+                ctx.record("remaining-bytes-of-the-error-are-left-intact", left == [2, 3, 4], site="auto/marshal.py:marshal", detail=f"remaining {left}, expected [2, 3, 4]")
+            return ("return", None)
+
+        res = explore(run_err)
+        u.add_paths(res, f"C15/WRAP/auto/{fmt}/error")
     return u
 
 
